@@ -14,7 +14,24 @@ STRUCT = ("sym", "structure")
 
 
 def template(t):
-    """'%s.%s' % (a, b) / f'{a}.{b}' / a + '.' + str(b)  ->  [a, '.', b]"""
+    """'%s.%s' % (a, b) / f'{a}.{b}' / a + '.' + str(b)  ->  [a, '.', b];  a part that is itself formatted text
+    ('%s%s' % ('%s.' % a, b)) is spliced in, adjacent literals are joined"""
+    out = _template(t)
+    if out is None:
+        return None
+    flat = []
+    for x in out:
+        sub = _template(x) if isinstance(x, tuple) and x[0] in ("binop", "fstr") else None
+        sub = template(x) if sub is not None else None
+        for y in sub if sub is not None else [x]:
+            if isinstance(y, str) and flat and isinstance(flat[-1], str):
+                flat[-1] += y
+            else:
+                flat.append(y)
+    return flat
+
+
+def _template(t):
     if t[0] == "binop" and t[1] == "%" and t[2][0] == "const" and isinstance(t[2][1], str):
         args = list(t[3][1]) if t[3][0] == "tuple" else [t[3]]
         parts = t[2][1].split("%s")
@@ -30,7 +47,7 @@ def template(t):
     if t[0] == "fstr":
         return list(t[1])
     if t[0] == "binop" and t[1] == "+":
-        a, b = template(t[2]), template(t[3])
+        a, b = _template(t[2]), _template(t[3])
         if a is not None and b is not None:
             return a + b
     if t[0] == "const" and isinstance(t[1], str):
